@@ -200,6 +200,8 @@ class C11(Check):
             "(I vs S only), "
             "and raw strings for shlex.split (exhaustive over a 7-letter alphabet up to length 4/6 + random).  Every vector is "
             "also rendered with shlex.join and read back through CompileCommand(command=...) and config.load_database.  "
+            "HISTORY: databases of 2-4 entries for one load_database call that share the compiler and the option names but differ "
+            "in option values (spelling and arguments/command form per entry): every entry must get what it gets alone.  "
             "POSIX-shell renderings of random vectors (plain, backslash-escaped, single- and double-quoted segments, any white "
             "space) must be split back into the vector.  "
             "Non-trivial = at least one recognised option AND at least one other argument (renderings: two or more words and a "
@@ -214,7 +216,7 @@ class C11(Check):
         super().__init__(tier, seed)
         self._root = None
         self._hist = {"kind": {}, "argv_len": {}, "outcome": {}, "outcome_malformed": {}, "classes": {}, "split_outcome": {}, "render_outcome": {},
-                      "real_compiler": {}, "outcome_real_compiler": {}}
+                      "real_compiler": {}, "outcome_real_compiler": {}, "db_entries": {}, "db_outcome": {}}
         self._seen = set()
         self._in_safe = {}
         self._safe_count = {True: 0, False: 0}
@@ -245,6 +247,36 @@ class C11(Check):
             else:
                 items.append(list(self.rng.choice(CATALOGUE)))
         return items
+
+    def db_case(self, cc=CC):
+        rng = self.rng
+        slots = []
+        for _ in range(rng.randint(1, 8)):
+            if rng.random() < 0.55:
+                slots.append(("rec", rng.choice("DDIISF")))
+            else:
+                slots.append(("cat", list(rng.choice(CATALOGUE))))
+        n = rng.randint(2, 4)
+        shared_spelling = rng.random() < 0.6
+        spell0 = [rng.random() < 0.5 for _ in slots]
+        entries = []
+        first_vals = None
+        for e in range(n):
+            items, vals = [], []
+            for j, (kind, x) in enumerate(slots):
+                if kind == "cat":
+                    items.append(list(x))
+                    vals.append(None)
+                    continue
+                pool = [v for v in VALUES[x] if not v.startswith(("-", "="))]
+                v = first_vals[j] if (first_vals is not None and rng.random() < 0.25) else rng.choice(pool)
+                vals.append(v)
+                attached = (spell0[j] if shared_spelling else rng.random() < 0.5) and x in "DI"
+                items.append([FLAGS[x] + v] if attached else [FLAGS[x], v])
+            if first_vals is None:
+                first_vals = vals
+            entries.append({"items": items, "form": rng.choice(["arguments", "command"])})
+        return {"kind": "db", "cc": cc, "entries": entries, "dom": True}
 
     def malformed_vector(self):
         rng = self.rng
@@ -318,6 +350,12 @@ class C11(Check):
             cc = self.rng.choice(REAL_CCS)
             out.append({"kind": "cc", "cc": cc, "dom": True,
                         "items": unregistered(cc, self.random_vector(self.rng.randint(2, 12), safe_only=self.rng.random() < 0.7))})
+        # 4c. HISTORY within one database: 2-4 entries loaded by ONE load_database call that share the compiler and the
+        #     list of option names (and every unmodelled option) but differ in option VALUES; spelling (attached /
+        #     separate) and entry form (arguments / command) chosen per entry; different source files.  Every entry must
+        #     get exactly what M / S give for that entry alone.
+        for i in range(2500 if quick else 25000):
+            out.append(self.db_case())
         # 5. malformed stream (outside the quantifier: compared with M only)
         for i in range(2000 if quick else 30000):
             out.append(argv_case(self.malformed_vector(), False))
@@ -380,6 +418,8 @@ class C11(Check):
         return flatten(case["items"])
 
     def encode(self, case):
+        if case["kind"] == "db":
+            return enc(["db", [[t.encode("latin-1") for t in flatten(e["items"])] for e in case["entries"]]])
         if case["kind"] in ("argv", "cc"):
             return enc(["argv", [t.encode("latin-1") for t in self.argv(case)]])
         # (bytes are always hex-encoded: common.enc would pass "a\n" through as a bare word)
@@ -503,6 +543,11 @@ class C11(Check):
             inc("kind", case["kind"])
             inc("split_outcome" if case["kind"] == "split" else "render_outcome", ia[0] if ia[0] == "Ok" else ia[1])
             return
+        if case["kind"] == "db":
+            inc("kind", "database-history")
+            inc("db_entries", str(len(case["entries"])))
+            inc("db_outcome", ia[0])
+            return
         if case["kind"] == "cc":
             inc("kind", "real-compiler")
             inc("real_compiler", case["cc"])
@@ -517,7 +562,66 @@ class C11(Check):
         for cls in {c for c, _ in class_instances(argv)}:
             inc("classes", cls)
 
+    def _db_root(self):
+        if self._root is None:
+            self._root = common.scratch() / "c11db"
+            self._root.mkdir(parents=True, exist_ok=True)
+            (self._root / "f.c").write_text("int x;\n")
+        for i in range(4):
+            d = self._root / f"s{i}"
+            if not d.exists():
+                d.mkdir()
+                (d / "f.c").write_text("int x;\n")
+        return str(self._root)
+
+    def _abs(self, paths):
+        root = self._db_root()
+        return [os.path.abspath(os.path.join(root, p)) for p in paths]
+
+    def _load_db(self, case):
+        """one load_database call over all entries; per entry (by source file) what it was given"""
+        from codebasin import config
+        root = self._db_root()
+        db = self._root / "compile_commands_hist.json"
+        doc = []
+        for i, e in enumerate(case["entries"]):
+            full = [case["cc"]] + flatten(e["items"])
+            ent = {"directory": root, "file": f"s{i}/f.c"}
+            if e["form"] == "arguments":
+                ent["arguments"] = full
+            else:
+                ent["command"] = shlex.join(full)
+            doc.append(ent)
+        db.write_text(json.dumps(doc))
+        lg = logging.getLogger("codebasin")
+        old = lg.level
+        lg.setLevel(logging.CRITICAL)
+        try:
+            with contextlib.redirect_stderr(io.StringIO()):
+                try:
+                    entries = config.load_database(str(db), root)
+                except SystemExit:
+                    return ["SystemExit"]
+                except argparse.ArgumentError:
+                    return ["Raise"]
+                except Exception as e:  # noqa
+                    return ["Err", type(e).__name__]
+        finally:
+            lg.setLevel(old)
+        out = []
+        for i in range(len(case["entries"])):
+            mine = [x for x in entries if x["file"] == os.path.join(root, f"s{i}", "f.c") and x.get("pass_name", "default") == "default"]
+            if len(mine) != 1:
+                out.append(["entries", len(mine)])
+            else:
+                out.append([mine[0]["defines"], mine[0]["include_paths"], mine[0]["include_files"]])
+        return ["Ok", out]
+
     def impl(self, case):
+        if case["kind"] == "db":
+            r = self._load_db(case)
+            self._count(case, r)
+            return r
         if case["kind"] in ("split", "render"):
             r = self._split(case["s"] if case["kind"] == "split" else render_cmd(case))
             self._count(case, r)
@@ -534,6 +638,17 @@ class C11(Check):
 
     # ------------------------------------------------------------ views
     def model_view(self, case, ans):
+        if case["kind"] == "db":
+            if case["cc"] != CC:
+                return None
+            out = []
+            for res, _s in ans:
+                if res[0] not in ("Ok", "ArgErr"):
+                    return [res[0]]
+                if any(not isinstance(x, str) for x in res[2]):
+                    return ["Err", "TypeError"]
+                out.append([res[1], self._abs(res[2]), res[3]])
+            return ["Ok", out]
         if case["kind"] == "cc":
             return None            # compiler-specific tables are not modelled here (C12)
         if case["kind"] in ("split", "render"):
@@ -552,6 +667,17 @@ class C11(Check):
             return None
         if case["kind"] == "render":
             return ["Ok", ["".join(value_seg(sg) for sg in w) for w, _sep in case["words"]]]
+        if case["kind"] == "db":
+            # the property is per command: the single-command scanner mapped over the entries
+            extra = self._cct[case["cc"]][2] if case["cc"] != CC else []
+            out = []
+            for i, e in enumerate(case["entries"]):
+                py = scan_py(flatten(e["items"]) + extra)
+                if ans is not None and ans not in ("PARSEERROR", "BADCASE", "UNKNOWN") and not extra:
+                    if ans[i][1] != py and len(self._py_coq_spec_mismatch) < 3:
+                        self._py_coq_spec_mismatch.append((flatten(e["items"]), ans[i][1], py))
+                out.append([py[0], self._abs(py[1]), py[2]])
+            return ["Ok", out]
         argv = self.argv(case)
         py = scan_py(argv)
         if ans is not None and ans not in ("PARSEERROR", "BADCASE", "UNKNOWN"):
@@ -571,16 +697,20 @@ class C11(Check):
         return [["Ok"] + lists, ["Ok", argv], "same" if case.get("db") else "n/a"]
 
     def impl_view_for_spec(self, case, ia):
-        if case["kind"] in ("split", "render"):
+        if case["kind"] in ("split", "render", "db"):
             return ia
         if case["kind"] == "cc":
             return [ia[0][:4]]
         return [ia[0][:4], ia[2], ia[3]]
 
     def in_domain(self, case, spec_ans):
-        return case["kind"] == "render" or (case["kind"] in ("argv", "cc") and bool(case.get("dom")))
+        return case["kind"] == "render" or (case["kind"] in ("argv", "cc", "db") and bool(case.get("dom")))
 
     def nontrivial(self, case, ia):
+        if case["kind"] == "db":
+            # two entries with the same option names but different values
+            per = [scan_py(flatten(e["items"])) for e in case["entries"]]
+            return any(sum(map(len, x)) for x in per) and any(x != per[0] for x in per[1:])
         if case["kind"] == "render":
             return len(case["words"]) >= 2 and any(sg[0] != "P" for w, _ in case["words"] for sg in w)
         if case["kind"] not in ("argv", "cc"):
@@ -622,6 +752,21 @@ class C11(Check):
         return min(inst, key=lambda x: x[1])[0]
 
     def shrink(self, case, still_fails):
+        if case["kind"] == "db":
+            cur = case
+            # fewer entries (at least one), then fewer option slots (the same slot in every entry)
+            for i in reversed(range(len(cur["entries"]))):
+                if len(cur["entries"]) > 1:
+                    cand = dict(cur, entries=cur["entries"][:i] + cur["entries"][i + 1:])
+                    if still_fails(cand):
+                        cur = cand
+            nslots = min(len(e["items"]) for e in cur["entries"])
+            if all(len(e["items"]) == nslots for e in cur["entries"]):
+                for j in reversed(range(nslots)):
+                    cand = dict(cur, entries=[dict(e, items=e["items"][:j] + e["items"][j + 1:]) for e in cur["entries"]])
+                    if still_fails(cand):
+                        cur = cand
+            return cur
         if case["kind"] not in ("argv", "cc"):
             return case
         mk = lambda its: dict(case, items=its)  # noqa
